@@ -38,14 +38,15 @@ TIERS = {
         [("mac1t", "CPP_t.cfg", 6, None, None)],
         [("mac2t", "CPP_t2.cfg", 9, None, None)],
         [("macstrt", "CPP_str_t.cfg", 4, None, None)],
-        [("macsim", "CPP_sim.cfg", 4, 40000, 60), ("macsim3", "CPP_sim3.cfg", 4, 40000, 60)],
+        [("macsimt", "CPP_sim.cfg", 4, 40000, 60), ("macsim3", "CPP_sim3.cfg", 4, 40000, 60)],
         [("macsimp", "CPP_simp.cfg", 4, 40000, 60), ("condsim", "CPP_cond_sim.cfg", 2, 30000, 40)],
         [("condt", "CPP_cond_t.cfg", 8, None, None)],
         [("if1t", "CPP_if_t.cfg", 16, None, None), ("ifsimt", "CPP_if_sim.cfg", 6, 60000, 60)],
     ],
 }
-SELFTEST_JOBS = [("mac2", "CPP_mc2.cfg", 4, None, None), ("cond", "CPP_cond_mc.cfg", 1, None, None),
-                 ("if1", "CPP_if_mc.cfg", 4, None, None)]
+# selftest: one slice of each family (6th element = the parts that are run)
+SELFTEST_JOBS = [("mac2", "CPP_mc2.cfg", 4, None, None, [1]), ("cond", "CPP_cond_mc.cfg", 5, None, None, [0]),
+                 ("if1", "CPP_if_mc.cfg", 41, None, None, [5])]
 
 # finding keys (all specific to one input family; see findings/known-findings.txt)
 K_COND = "cpp:if:cond_expr_signedness"
@@ -167,7 +168,7 @@ def run_file(c2m, cases, base, tag, keep=False):
     """Render cases[base..] into one file, run both preprocessors.
     Returns (c2m_results, gcc_results, c2m_status, gcc_status, path, errcases); results: index -> token list;
     errcases: indices of the cases on whose lines c2m or gcc printed a diagnostic "file:line:"."""
-    d = os.path.join(WORK, "run")
+    d = os.path.join(WORK, "run-%d" % os.getpid())      # per process: several checks may run at once
     os.makedirs(d, exist_ok=True)
     fn = os.path.join(d, "%s_%d.c" % (tag, base))
     starts = []
@@ -346,10 +347,11 @@ def judge_batches(c2m, cases, tag, stats):
 def gen_cases(jobs, stats, maxpar=None):
     """Run the TLC jobs (each split over JVMs by IOEnv PART/NPARTS); returns {jobname: [defined cases]}."""
     kws, owner = [], []
-    for name, cfg, nparts, sim, depth in jobs:
+    for job in jobs:
+        name, cfg, nparts, sim, depth = job[:5]
         if not os.path.exists(os.path.join(vlib.SPEC, cfg)):
             raise MachineryError("missing " + cfg)
-        for p in range(nparts):
+        for p in (job[5] if len(job) > 5 else range(nparts)):
             kw = dict(module="CPP", cfg=cfg, workers=2 if sim else 4, env={"PART": p, "NPARTS": nparts}, heap="3g -Xss64m", timeout=1500)
             if sim:
                 kw.update(simulate=max(1, sim // nparts), depth=depth, seed_=vlib.seed() * 1000 + p)
@@ -490,10 +492,18 @@ def selftest():
     stats = Stats()
     gen, _, _ = gen_cases(SELFTEST_JOBS, stats)
     import copy
+
+    def passes(c):
+        st = Stats()
+        judge_batches(c2m, [c], "selftest", st)
+        return st.cnt["pass"] == 1 and not st.fail and not st.spec_dis
+
     for name, cases in gen.items():
-        ok_cases = [c for c in cases if c["fam"] != "mac" or c["exp"]]
-        good = ok_cases[len(ok_cases) // 3]
-        c = copy.deepcopy(ok_cases[len(ok_cases) // 2])
+        cand = [c for c in cases if c["fam"] != "mac" or (c["exp"] and c.get("ft"))]
+        pick = [c for c in cand[len(cand) // 3:len(cand) // 3 + 40] if passes(c)][:2]
+        if len(pick) < 2:
+            raise MachineryError("selftest: no passing cases in slice " + name)
+        good, c = pick[0], copy.deepcopy(pick[1])
         if c["fam"] == "if":
             c["obs"][0] = "0" if c["obs"][0] == "1" else "1"
         elif c["fam"] == "cond":
@@ -503,7 +513,7 @@ def selftest():
         st = Stats()
         judge_batches(c2m, [good, c], "selftest", st)
         objected = len(st.fail) + len(st.spec_dis) == 1 and st.cnt["pass"] == 1
-        print("selftest %s: corrupted expectation %s" % (name, "rejected" if objected else "NOT rejected"))
+        print("selftest %s: corrupted expectation %s (%s)" % (name, "rejected" if objected else "NOT rejected", " | ".join(render(c, 0)[1:-1])[:120]))
         bad += 0 if objected else 1
     return 1 if bad else 0
 
